@@ -54,7 +54,9 @@ class BaseAnalytical(object):
         assert r_max > 0
 
         if symmetric:
-            self.r = np.linspace(-r_max, r_max, n)
+            # (exactly symmetric, with an exact 0 in the middle for odd n,
+            #  which np.linspace(-r_max, r_max, n) does not guarantee)
+            self.r = (np.arange(n) - (n - 1) / 2) * (2 * r_max / (n - 1))
         else:
             self.r = np.linspace(0, r_max, n)
 
